@@ -43,6 +43,7 @@ def make_client(agent, version="v2c", level="noauth", community="public", user="
         agent.v3.users[user.encode()] = {
             "auth": (auth.method, auth.key) if auth else None,
             "priv": (priv.method, priv.key) if priv else None,
+            "pad": 8 if level.endswith("-pad") else None,  # the agent pads encrypted payloads like a block cipher
         }
     return Client("127.0.0.1", creds, sender=agent)
 
@@ -92,7 +93,7 @@ def impl_walk(spec, roots, kind="getnext", size=10, lenient=False, version="v2c"
     agent = RA.Agent(
         db=[(tuple(o), v) for o, v in spec.get("db", [])],
         table=table,
-        bulk_policy={"rows": pol.get("rows"), "cut": pol.get("cut", 0), "stop_after_eom_row": pol.get("stop", True), "deep": pol.get("deep", False), "starve": pol.get("starve")},
+        bulk_policy={"rows": pol.get("rows"), "cut": pol.get("cut", 0), "stop_after_eom_row": pol.get("stop", True), "deep": pol.get("deep", False), "starve": pol.get("starve"), "maxvb": pol.get("maxvb")},
         budget=budget,
         hook=hook,
     )
@@ -223,8 +224,9 @@ def random_case(rng, max_inst=60, max_roots=5):
 def large_case(cols, rows, base=(1, 3, 6, 1, 4, 1, 9, 1)):
     """`cols` adjacent columns of `rows` instances each, one root per column: a big table, where
     each column's walk steps into a column that was handed out thousands of yields earlier"""
-    db = [[list(base) + [c, i], ["int", (c * 7 + i) % 1000]] for c in range(1, cols + 1) for i in range(1, rows + 1)]
-    return db, [list(base) + [c] for c in range(1, cols + 1)]
+    shape = [rows] * cols if isinstance(rows, int) else list(rows)  # rows per column
+    db = [[list(base) + [c, i], ["int", (c * 7 + i) % 1000]] for c in range(1, len(shape) + 1) for i in range(1, shape[c - 1] + 1)]
+    return db, [list(base) + [c] for c in range(1, len(shape) + 1)]
 
 
 def summary(walk):
